@@ -19,7 +19,12 @@ builds=$(cd $WT && go build ./... >/dev/null 2>&1 && echo yes || echo no)
 demo_with=$(cd $WT/tests && go test $RACE -vet=off -count=1 -run "^${demo_name}\$" . >>/tmp/seed_log_$$ 2>&1 && echo pass || echo fail)
 rm -f $WT/tests/zz_seed_demo_test.go
 suite_root=$(cd $WT && go test -vet=off -count=1 ./... >/dev/null 2>&1 && echo pass || echo fail)
-suite_tests=$(cd $WT/tests && go test -vet=off -count=1 ./... >/dev/null 2>&1 && echo pass || echo fail)
+suite_tests=$(cd $WT/tests && go test -vet=off -count=1 ./... >/tmp/seed_suite_$$ 2>&1 && echo pass || echo fail)
+if [ $suite_tests = fail ]; then
+  # gorm's TestPreparedStmtConcurrentClose is timing-dependent under load: one retry
+  suite_tests=$(cd $WT/tests && go test -vet=off -count=1 ./... >/tmp/seed_suite_$$ 2>&1 && echo pass || echo fail)
+fi
+rm -f /tmp/seed_suite_$$
 out=$(cd /verif && VERIF_REPO=$WT VERIF_TIER=$TIER timeout 1500 ./check $P 2>&1 | tail -6)
 rc=$?
 caught=no; echo "$out" | grep -q "^VIOLATION property=$P" && caught=yes
